@@ -23,6 +23,7 @@ import (
 	"time"
 
 	"github.com/IrineSistiana/mosdns/v5/pkg/cache"
+	"github.com/IrineSistiana/mosdns/v5/pkg/concurrent_lru"
 	"github.com/IrineSistiana/mosdns/v5/pkg/verifhook"
 
 	"verifharness/hx"
@@ -521,6 +522,34 @@ type event struct {
 func runConc(w *hx.Writer, id string, r *hx.RNG, size int, g int, scripts [][]op) {
 	s := newStore(size)
 	defer s.c.Close()
+	runConcOn(w, id, "conc", r, size, g, scripts, s.do)
+}
+
+// lruDo maps the cache operations onto a ShardedLRU (no expiry: every stored value carries
+// the expiry 3600 of its script, gc = a Clean that removes nothing).
+func lruDo(c *concurrent_lru.ShardedLRU[key, uint64]) func(op) string {
+	return func(o op) string {
+		switch o.kind {
+		case "get":
+			v, ok := c.Get(key(o.k))
+			if !ok {
+				return "(RGet None)"
+			}
+			return hx.App("RGet", hx.Some(hx.Tuple(hx.N(v), hx.Z(3600))))
+		case "store":
+			c.Add(key(o.k), o.v)
+		case "flush":
+			c.Flush()
+		case "len":
+			return hx.App("RLen", hx.Ni(c.Len()))
+		case "gc":
+			c.Clean(func(key, uint64) bool { return false })
+		}
+		return "RUnit"
+	}
+}
+
+func runConcOn(w *hx.Writer, id, kind string, r *hx.RNG, size int, g int, scripts [][]op, do func(op) string) {
 	var ctr atomic.Int64
 	evs := make([][]event, g)
 	start := make(chan struct{})
@@ -574,7 +603,7 @@ func runConc(w *hx.Writer, id string, r *hx.RNG, size int, g int, scripts [][]op
 					runtime.Gosched()
 				}
 				inv := ctr.Add(1)
-				res := s.do(o)
+				res := do(o)
 				end := ctr.Add(1)
 				evs[t] = append(evs[t],
 					event{inv, hx.App("Inv", hx.Ni(t+1), o.coq())},
@@ -597,11 +626,11 @@ func runConc(w *hx.Writer, id string, r *hx.RNG, size int, g int, scripts [][]op
 	if panics.Load() > 0 {
 		labels = append(labels, "Res 99 RUnit") // ill-formed on purpose: a panic is never allowed
 	}
-	w.Emit("conc", hx.Case{
+	w.Emit(kind, hx.Case{
 		ID:   id,
 		Coq:  hx.App("CConc", hx.Z(int64(size)), hx.List(labels)),
-		Desc: map[string]any{"kind": "conc", "size": size, "goroutines": g, "events": len(all)},
-		FKey: "conc",
+		Desc: map[string]any{"kind": kind, "size": size, "goroutines": g, "events": len(all)},
+		FKey: kind,
 	})
 }
 
@@ -829,6 +858,218 @@ func runLenMax(w *hx.Writer, id string, size, writers, perWriter int, flusher bo
 	})
 }
 
+// ---------- pkg/concurrent_lru + pkg/lru ----------
+
+type lop struct {
+	kind string // add get del clean len flush
+	k, v uint64
+	m, r uint64
+}
+
+func (o lop) coq() string {
+	switch o.kind {
+	case "add":
+		return hx.App("LAdd", hx.N(o.k), hx.N(o.v))
+	case "get":
+		return hx.App("LGet", hx.N(o.k))
+	case "del":
+		return hx.App("LDel", hx.N(o.k))
+	case "clean":
+		return hx.App("LClean", hx.N(o.m), hx.N(o.r))
+	case "len":
+		return "LLen"
+	}
+	return "LFlush"
+}
+
+func runLru(w *hx.Writer, id string, shards, maxper int, ops []lop) {
+	var ev []string
+	c := concurrent_lru.NewShardedLRU[key, uint64](shards, maxper, func(k key, v uint64) {
+		ev = append(ev, hx.Tuple(hx.N(uint64(k)), hx.N(v)))
+	})
+	var opsC, obsC []string
+	evicted := 0
+	for _, o := range ops {
+		ev = nil
+		res := "LRUnit"
+		switch o.kind {
+		case "add":
+			c.Add(key(o.k), o.v)
+		case "get":
+			v, ok := c.Get(key(o.k))
+			res = hx.App("LRGet", hx.Opt(ok, hx.N(v)))
+		case "del":
+			c.Del(key(o.k))
+		case "clean":
+			n := c.Clean(func(k key, v uint64) bool { return (uint64(k)+v)%o.m == o.r })
+			res = hx.App("LRNum", hx.Ni(n))
+		case "len":
+			res = hx.App("LRNum", hx.Ni(c.Len()))
+		default:
+			c.Flush()
+		}
+		evicted += len(ev)
+		opsC = append(opsC, o.coq())
+		obsC = append(obsC, hx.Tuple(res, hx.List(ev)))
+	}
+	w.Emit("lru", hx.Case{
+		ID:   id,
+		Coq:  hx.App("CLru", hx.Ni(shards), hx.Ni(maxper), hx.List(opsC), hx.List(obsC)),
+		Desc: map[string]any{"kind": "lru", "shards": shards, "maxper": maxper, "ops": len(ops), "evicted": evicted},
+		FKey: "lru",
+	})
+}
+
+func genLru(r *hx.RNG) (int, int, []lop) {
+	shards := r.Range(1, 4)
+	maxper := r.Range(1, 8)
+	nk := shards*maxper + r.Range(-1, 3)
+	if nk < 2 {
+		nk = 2
+	}
+	if r.Chance(1, 3) {
+		nk = r.Range(2, 4) // few keys: mostly overwrites
+	}
+	n := r.Range(10, 40)
+	var ops []lop
+	last := uint64(0)
+	tag := uint64(1)
+	for i := 0; i < n; i++ {
+		k := uint64(r.Intn(nk))
+		if r.Chance(1, 4) {
+			k = last // the key touched last is the newest element of its shard
+		}
+		x := r.Intn(100)
+		switch {
+		case x < 50:
+			ops = append(ops, lop{kind: "add", k: k, v: tag})
+			tag++
+			last = k
+		case x < 76:
+			ops = append(ops, lop{kind: "get", k: k})
+			last = k
+		case x < 83:
+			ops = append(ops, lop{kind: "del", k: k})
+		case x < 88:
+			m := uint64(r.Range(1, 4))
+			ops = append(ops, lop{kind: "clean", m: m, r: uint64(r.Intn(int(m)))})
+		case x < 96:
+			ops = append(ops, lop{kind: "len"})
+		default:
+			ops = append(ops, lop{kind: "flush"})
+		}
+	}
+	for k := 0; k < nk && k < 6; k++ {
+		ops = append(ops, lop{kind: "get", k: uint64(k)})
+	}
+	ops = append(ops, lop{kind: "len"})
+	return shards, maxper, ops
+}
+
+func genConcLru(r *hx.RNG) (int, int, int, [][]op) {
+	g := r.Range(2, 4)
+	shards := r.Range(1, 2)
+	maxper := r.Range(2, 8)
+	pool := []uint64{4, 8, 5}[:r.Range(1, 3)]
+	total := r.Range(12, 36)
+	scripts := make([][]op, g)
+	for i := 0; i < total; i++ {
+		t := r.Intn(g)
+		tag := uint64((t+1)*1000 + len(scripts[t]) + 1)
+		var o op
+		switch x := r.Intn(100); {
+		case x < 48:
+			o = op{kind: "store", k: hx.Pick(r, pool), v: tag, t: 3600}
+		case x < 90:
+			o = op{kind: "get", k: hx.Pick(r, pool)}
+		case x < 93:
+			o = op{kind: "flush"}
+		case x < 97:
+			o = op{kind: "len"}
+		default:
+			o = op{kind: "gc", t: 0}
+		}
+		scripts[t] = append(scripts[t], o)
+	}
+	return g, shards, maxper, scripts
+}
+
+// ---------- one full shard hammered by overwrites of present keys and stores of absent ones ----------
+
+// runLenHot: every shard is filled to its limit; then the goroutines store keys of ONE shard
+// taken from a pool slightly larger than the shard's limit, so that at any moment most of the
+// pool is present (overwrites) and a few keys are absent (their insertion evicts a present
+// key). Len is read by every goroutine after each of its stores and by a sampler.
+func runLenHot(w *hx.Writer, id string, r *hx.RNG, size, workers, perWorker int) {
+	s := newStore(size)
+	defer s.c.Close()
+	per := perShard(size)
+	for j := 0; j < 64*(per+1); j++ { // every shard full
+		s.c.Store(key(j), uint64(j), s.at(3600))
+	}
+	s0 := uint64(r.Intn(64))
+	extra := r.Range(1, 3)
+	pool := make([]uint64, per+extra)
+	for j := range pool {
+		pool[j] = s0 + 64*uint64(j)
+	}
+	var maxLen atomic.Int64
+	note := func() {
+		if l := int64(s.c.Len()); l > maxLen.Load() {
+			maxLen.Store(l)
+		}
+	}
+	note()
+	stop := make(chan struct{})
+	var sw sync.WaitGroup
+	sw.Add(1)
+	go func() {
+		defer sw.Done()
+		for {
+			note()
+			select {
+			case <-stop:
+				return
+			default:
+			}
+		}
+	}()
+	seeds := make([]uint64, workers)
+	for t := range seeds {
+		seeds[t] = r.U64()
+	}
+	start := make(chan struct{})
+	var wg sync.WaitGroup
+	for t := 0; t < workers; t++ {
+		wg.Add(1)
+		go func(t int) {
+			defer wg.Done()
+			x := seeds[t] | 1
+			<-start
+			for j := 0; j < perWorker; j++ {
+				x ^= x << 13
+				x ^= x >> 7
+				x ^= x << 17
+				s.c.Store(key(pool[x%uint64(len(pool))]), uint64(t*perWorker+j), s.at(3600))
+				if j%4 == 0 {
+					note()
+				}
+			}
+		}(t)
+	}
+	close(start)
+	wg.Wait()
+	close(stop)
+	sw.Wait()
+	note()
+	w.Emit("lenhot", hx.Case{
+		ID:   id,
+		Coq:  hx.App("CLenMax", hx.Z(int64(size)), hx.N(uint64(maxLen.Load()))),
+		Desc: map[string]any{"kind": "lenhot", "size": size, "workers": workers, "stores": workers * perWorker, "max_len": maxLen.Load()},
+		FKey: "lenhot",
+	})
+}
+
 // ---------- main ----------
 
 func main() {
@@ -945,6 +1186,39 @@ func main() {
 			runLenMax(w, id, size, 4, 1500, true)
 		}
 	}
+	// catalogue: a full shard under concurrent overwrites and insertions
+	for i, size := range []int{-1, 10, 1024, 1100, 2000} {
+		id := fmt.Sprintf("cat:lenhot:%d", i)
+		if o.Want(id) {
+			runLenHot(w, id, hx.NewRNG(o.Seed, id), size, 8, 12000)
+		}
+	}
+	// catalogue: LRU scripts
+	{
+		A := func(k, v uint64) lop { return lop{kind: "add", k: k, v: v} }
+		G := func(k uint64) lop { return lop{kind: "get", k: k} }
+		D := func(k uint64) lop { return lop{kind: "del", k: k} }
+		C := func(m, r uint64) lop { return lop{kind: "clean", m: m, r: r} }
+		L, F := lop{kind: "len"}, lop{kind: "flush"}
+		type lc struct {
+			shards, maxper int
+			ops            []lop
+		}
+		lcs := []lc{
+			{4, 16, []lop{A(4, 1), A(8, 1), A(4, 2), G(4), A(4, 3), G(4), L}},                           // overwrite an older entry, then the newest one
+			{1, 2, []lop{A(1, 1), A(1, 2), G(1), A(2, 1), A(1, 3), G(1), A(3, 1), G(2), G(1), G(3), L}}, // recency decides the victim
+			{1, 1, []lop{A(1, 1), A(2, 2), G(1), G(2), A(2, 3), G(2), D(2), G(2), L}},
+			{2, 2, []lop{A(0, 1), A(2, 2), A(4, 3), A(1, 4), G(0), G(2), G(4), G(1), L, F, L, G(1)}},
+			{1, 4, []lop{A(1, 1), A(2, 2), A(3, 3), A(3, 4), C(2, 0), L, G(1), G(2), G(3), C(1, 0), L}}, // Clean sees the current values
+			{3, 2, []lop{A(5, 1), G(5), A(5, 2), D(5), A(5, 3), A(5, 4), G(5), D(7), L}},
+		}
+		for i, x := range lcs {
+			id := fmt.Sprintf("cat:lru:%d", i)
+			if o.Want(id) {
+				runLru(w, id, x.shards, x.maxper, x.ops)
+			}
+		}
+	}
 	// catalogue: fill beyond capacity, flush, fill again, sweep, fill again, close, fill again
 	for _, size := range sizes {
 		id := fmt.Sprintf("cat:fillseq:%d", size)
@@ -1003,6 +1277,36 @@ func main() {
 		r := hx.NewRNG(o.Seed, id)
 		size, g, scripts := genConc(r)
 		runConc(w, id, r, size, g, scripts)
+	}
+	nlr := o.Count(150, 5000)
+	for i := 0; i < nlr; i++ {
+		id := fmt.Sprintf("lru:%d", i)
+		if !o.Want(id) {
+			continue
+		}
+		r := hx.NewRNG(o.Seed, id)
+		shards, maxper, ops := genLru(r)
+		runLru(w, id, shards, maxper, ops)
+	}
+	ncl := o.Count(100, 3000)
+	for i := 0; i < ncl; i++ {
+		id := fmt.Sprintf("conclru:%d", i)
+		if !o.Want(id) {
+			continue
+		}
+		r := hx.NewRNG(o.Seed, id)
+		g, shards, maxper, scripts := genConcLru(r)
+		c := concurrent_lru.NewShardedLRU[key, uint64](shards, maxper, nil)
+		runConcOn(w, id, "conclru", r, 1024, g, scripts, lruDo(c))
+	}
+	nh := o.Count(6, 100)
+	for i := 0; i < nh; i++ {
+		id := fmt.Sprintf("lenhot:%d", i)
+		if !o.Want(id) {
+			continue
+		}
+		r := hx.NewRNG(o.Seed, id)
+		runLenHot(w, id, r, hx.Pick(r, sizes), r.Range(4, 12), r.Range(4000, 12000))
 	}
 	nf := o.Count(40, 1200)
 	for i := 0; i < nf; i++ {
